@@ -123,8 +123,8 @@ pub fn run(cx: &mut Ctx) {
                 continue;
             }
         };
-        for k in 0..3 {
-            let m: WMap = ws
+        for k in 0..5 {
+            let mut m: WMap = ws
                 .iter()
                 .map(|(n, t)| {
                     let v = if i % 2 == 0 {
@@ -138,6 +138,18 @@ pub fn run(cx: &mut Ctx) {
                     (n.clone(), v)
                 })
                 .collect();
+            // maps that leave names out are legal too (the library zero-fills them)
+            if k == 3 {
+                m.clear();
+                cx.report.count("maps_empty", 1);
+            } else if k == 4 {
+                if ws.is_empty() {
+                    continue;
+                }
+                let drop = ws[rng.below(ws.len())].0.clone();
+                m.remove(&drop);
+                cx.report.count("maps_with_a_missing_name", 1);
+            }
             let wv = witness_values(&to_sim_map(&m, &ws));
             // the unpruned program is the oracle, as the property is stated
             let unpruned = match satisfy(&built.compiled, &wv, None) {
